@@ -1,5 +1,5 @@
 """C10 — renaming apart changes only variables, consistently (structural part)."""
-from solver import Solver, goal_kinds, real_calls, is_none, some_payload
+from solver import outcome_of, Solver, goal_kinds, real_calls, is_none, some_payload
 from callgraph import CallGraph
 import statics
 from sym import Walker, strip, show, mentions
@@ -54,7 +54,7 @@ def run(ctx):
                     ok, why = False, "the map is not looked up exactly once by the variable's own name"
                     continue
                 res = gets[0]["result"]
-                out = [v for c, v, bb in p.decisions if c == ("variant", res)]
+                out = [outcome_of(p, res)]
                 if out and out[0] == "Some":
                     hit = True
                     if idt != ("field", res, "Some.0"):
@@ -244,8 +244,7 @@ def run(ctx):
                 ok, why = False, "next_id writes the counter %d times" % len(ws)
                 continue
             v = strip(ws[0]["value"])
-            inc = v[0] == "field" and v[1][0] == "binop" and v[1][1] in ("AddWithOverflow", "Add") and strip(v[1][2]) == ws[0]["place"] \
-                and v[1][3][0] == "const" and v[1][3][3] == 1
+            inc = v[0] == "binop" and v[1] == "Add" and strip(v[2]) == ws[0]["place"] and v[3][0] == "const" and v[3][3] == 1
             if not inc:
                 ok, why = False, "next_id stores %s" % show(v)
             if strip(p.ret) != v and strip(p.ret) != ws[0]["place"]:
@@ -277,7 +276,7 @@ def run(ctx):
                 n += 1
                 # most recent head unification failed
                 uni = [x for x in ev[:i] if x["k"] == "call" and x["callee"].endswith("Unifiable::unify")]
-                if not uni or not any(c == ("variant", uni[-1]["result"]) and v == "None" for c, v, bb in p.decisions):
+                if not uni or outcome_of(p, uni[-1]["result"]) != "None":
                     ok, why = False, "set_var_id is called although the head unification did not fail: ids of a live clause would be reused"
                     continue
                 # value = get_var_id() taken before the get_rule of this iteration
